@@ -45,8 +45,10 @@ type Frame struct {
 	defers  []*ssa.Defer
 	recvd   bool
 	private    []privCell
+	privSl     map[ssa.Value]bool
 	loopIdx    *ssa.Phi
 	loopPhis   []*ssa.Phi
+	loopNames  map[string]*ssa.Phi
 	loopHead   map[int]*loopCtx
 	paramEntry map[string]Term
 	named      map[string]Term
@@ -694,6 +696,38 @@ func (g *Gen) loopHeader(f *Frame, ci *cfgInfo, b *ssa.BasicBlock, preds []*ssa.
 			f.loopIdx = phi
 		}
 	}
+	// names: phis of the enclosing loops (outermost first), then this loop's own
+	names := map[string]*ssa.Phi{}
+	type encl struct {
+		h    int
+		size int
+	}
+	var es []encl
+	for _, h := range ci.hdrList {
+		if h == b.Index {
+			continue
+		}
+		for _, lb := range ci.loopOf[h] {
+			if lb.Index == b.Index {
+				es = append(es, encl{h, len(ci.loopOf[h])})
+			}
+		}
+	}
+	sort.Slice(es, func(i, j int) bool { return es[i].size > es[j].size })
+	for _, e := range es {
+		for _, ins := range f.fn.Blocks[e.h].Instrs {
+			if phi, ok := ins.(*ssa.Phi); ok && phi.Comment != "" && phi.Comment != "rangeindex" {
+				names[phi.Comment] = phi
+			}
+		}
+	}
+	for _, phi := range phis {
+		if phi.Comment != "" && phi.Comment != "rangeindex" {
+			names[phi.Comment] = phi
+		}
+	}
+	f.loopNames = names
+	defer func() { f.loopNames = nil }()
 	defer func() { f.loopIdx = nil; f.loopPhis = nil }()
 	// automatic invariant of "for i := range slice" loops (SSA rangeindex pattern): -1 <= idx < n
 	type autoInv struct {
@@ -799,7 +833,7 @@ func (g *Gen) loopHeader(f *Frame, ci *cfgInfo, b *ssa.BasicBlock, preds []*ssa.
 	if f.loopHead == nil {
 		f.loopHead = map[int]*loopCtx{}
 	}
-	lc := &loopCtx{phis: phis, spec: spec, k: k, autos: lcAutos}
+	lc := &loopCtx{phis: phis, spec: spec, k: k, autos: lcAutos, names: names}
 	if spec != nil && spec.Decreases != nil {
 		v := g.clauseTerm(f, spec.Decreases, f.st, nil)
 		lc.varAtHead = g.defFresh("variant", "Int", v.S)
@@ -854,9 +888,104 @@ func isPrivateAlloc(a *ssa.Alloc) bool {
 	return true
 }
 
+// privateSlices: slice values of fn whose backing arrays were allocated by fn's own append calls and never
+// leave fn except by being returned: append results and loop-carried phis over them, used only by
+// append (as the slice appended to), len/cap, indexing, range and return.
+func privateSlices(fn *ssa.Function) map[ssa.Value]bool {
+	cand := map[ssa.Value]bool{}
+	for _, b := range fn.Blocks {
+		for _, ins := range b.Instrs {
+			switch v := ins.(type) {
+			case *ssa.Call:
+				if bi, ok := v.Call.Value.(*ssa.Builtin); ok && bi.Name() == "append" {
+					cand[v] = true
+				}
+			case *ssa.Phi:
+				if _, ok := types.Unalias(v.Type()).Underlying().(*types.Slice); ok {
+					cand[v] = true
+				}
+			}
+		}
+	}
+	ok := func(v ssa.Value) bool {
+		if c, isC := v.(*ssa.Const); isC && c.Value == nil {
+			return true
+		}
+		return cand[v]
+	}
+	for changed := true; changed; {
+		changed = false
+		for v := range cand {
+			good := true
+			switch x := v.(type) {
+			case *ssa.Call:
+				good = ok(x.Call.Args[0])
+			case *ssa.Phi:
+				for _, e := range x.Edges {
+					if !ok(e) {
+						good = false
+					}
+				}
+			}
+			if refs := v.Referrers(); good && refs != nil {
+				for _, r := range *refs {
+					switch u := r.(type) {
+					case *ssa.Call:
+						bi, isB := u.Call.Value.(*ssa.Builtin)
+						if !isB {
+							good = false
+						} else if bi.Name() == "append" {
+							if u.Call.Args[0] != v || (len(u.Call.Args) > 1 && u.Call.Args[1] == v) {
+								good = false
+							}
+						} else if bi.Name() != "len" && bi.Name() != "cap" {
+							good = false
+						}
+					case *ssa.Phi:
+						if !cand[u] {
+							good = false
+						}
+					case *ssa.Return, *ssa.DebugRef:
+					case *ssa.IndexAddr:
+						for _, ar := range *u.Referrers() {
+							if ld, isLd := ar.(*ssa.UnOp); !isLd || ld.Op != token.MUL {
+								if _, isDbg := ar.(*ssa.DebugRef); !isDbg {
+									good = false
+								}
+							}
+						}
+					default:
+						good = false
+					}
+				}
+			}
+			if !good {
+				delete(cand, v)
+				changed = true
+			}
+		}
+	}
+	return cand
+}
+
 // preservePrivate re-establishes the values of private cells after a havoc from old to new state.
 func (g *Gen) preservePrivate(f *Frame, old, nw *State, skip map[*ssa.Alloc]bool) {
 	for fr := f; fr != nil; fr = fr.parent {
+		if fr.privSl == nil {
+			fr.privSl = privateSlices(fr.fn)
+		}
+		for v := range fr.privSl {
+			t, ok := fr.vals[v]
+			if !ok {
+				continue
+			}
+			sl, ok := types.Unalias(v.Type()).Underlying().(*types.Slice)
+			if !ok {
+				continue
+			}
+			comp, _ := g.elemComp(sl.Elem())
+			g.assume("true", fmt.Sprintf("(=> (> (s_ref %[1]s) 0) (= (select %[2]s (s_ref %[1]s)) (select %[3]s (s_ref %[1]s))))", t.S, g.get(nw, comp), g.get(old, comp)))
+		}
 		for _, pc := range fr.private {
 			if skip != nil && skip[pc.alloc] {
 				continue
@@ -867,6 +996,7 @@ func (g *Gen) preservePrivate(f *Frame, old, nw *State, skip map[*ssa.Alloc]bool
 }
 
 type loopCtx struct {
+	names     map[string]*ssa.Phi
 	autos     map[*ssa.Phi]string
 	phis      []*ssa.Phi
 	spec      *LoopSpec
@@ -891,12 +1021,13 @@ func (g *Gen) backEdge(f *Frame, from, hdr *ssa.BasicBlock, en string) {
 		return
 	}
 	f.loopPhis = lc.phis
+	f.loopNames = lc.names
 	for _, phi := range lc.phis {
 		if phi.Comment == "rangeindex" {
 			f.loopIdx = phi
 		}
 	}
-	defer func() { f.loopIdx = nil; f.loopPhis = nil }()
+	defer func() { f.loopIdx = nil; f.loopPhis = nil; f.loopNames = nil }()
 	// evaluate invariant with phis := back-edge values in current state
 	saved := map[*ssa.Phi]Term{}
 	for _, phi := range lc.phis {
